@@ -41,7 +41,23 @@ var zzC14Progs = []string{
 	"test true\ni := 0\nwhile i >= 0\n    i = i + 1\n    print i\nend\n",
 	// 6: nested loops with break
 	"for i := range 2\n    for j := range 3\n        if j == 1\n            break\n        end\n        print i j\n    end\nend\n",
+	// 7: loops whose body is only a comment or empty still yield once per iteration
+	"for range 6\n    // wait\nend\ni := 0\nwhile i < 5\n    i = i + 1\nend\nfor range 4\n\n    // nothing\n\nend\nprint \"done\"\n",
+	// 8: busy waiting on input with a comment-only body
+	"while (read) != \"q\"\n    // wait\nend\nprint \"done\"\n",
+	// 9: calls of an empty procedure and of a function in an expression, in a loop
+	"func nop\n    // nothing\nend\nfunc one:num\n    return 1\nend\nn := 0\nfor range 5\n    nop\n    n = n + (one)\nend\nprint n\n",
+	// 10: a failed test before an endless loop: the result is still 'stopped'
+	"test 1 2\nwhile true\n    print \"x\"\nend\n",
+	// 11: endless loop inside a function called from a loop; early return and break paths
+	"func spin n:num\n    while true\n        if n < 0\n            return\n        end\n        print n\n    end\nend\nfor i := range 2\n    spin i\nend\n",
 }
+
+// zzC14MinYields: a lower bound on the yields of the complete run (one per
+// loop iteration and per call), for the terminating programs.
+var zzC14MinYields = map[int]int{1: 3, 2: 3, 3: 6, 6: 4, 7: 15, 8: 4, 9: 15}
+
+var zzC14Endless = map[int]bool{0: true, 4: true, 5: true, 10: true, 11: true}
 
 // zzEffects splits the recorded trace into platform effects, dropping the
 // yield markers.
@@ -56,7 +72,7 @@ func zzTraceEffects(trace []string) []string {
 }
 
 func zzRunStopped(src string, stopAt int) (*zzPlat, *zzYielder, *Evaluator, error) {
-	p := &zzPlat{}
+	p := &zzPlat{reads: []string{"a", "b", "c", "q"}}
 	y := &zzYielder{stopAt: stopAt, plat: p}
 	p.yielder = y
 	ev := NewEvaluator(p)
@@ -72,7 +88,7 @@ func ZZC14Stop() {
 	src := zzC14Progs[pi]
 	k := zzInt("k", 1, K)
 	p, y, ev, err := zzRunStopped(src, k)
-	endless := pi == 0 || pi == 4 || pi == 5
+	endless := zzC14Endless[pi]
 
 	stopped := false
 	for _, t := range p.trace {
@@ -83,6 +99,7 @@ func ZZC14Stop() {
 	if !stopped {
 		zzAssert(!endless, "C14: an endless program reaches every yield number")
 		zzAssert(err == nil, "C14: uninterrupted terminating program ends normally")
+		zzAssert(y.n >= zzC14MinYields[pi], "C14: the yielder is called at least once per loop iteration and per call of the complete run")
 		zzReach("not-stopped")
 		zzWitness("end-ns")
 		return
